@@ -256,10 +256,11 @@ def compare_snapshots(res, s1, s2, inc):
     return preds, n_bad, n_known
 
 
-def late_custom_downstream(res, missing):
+def late_custom_downstream(res, missing, never=False):
     """All `missing` instances are downstream of a custom output whose
     message was lost while the scheduler was down and which the restart
-    poll reported only after the job's final message had been handled."""
+    poll reported only after the job's final message had been handled
+    (with `never`: or which no poll reported before the scheduler exited)."""
     import re
     roots = set()
     for key, msg in res.world.lost_msgs:
@@ -274,7 +275,11 @@ def late_custom_downstream(res, missing):
         pat2 = re.compile(r'^\[%s/%s:waiting[^\]]*\] \(polled-ignored\)msg %s$'
                           % (re.escape(key[0]), re.escape(key[1]),
                              re.escape(out)))
-        if any(pat.match(m) or pat2.match(m) for _l, m in res.log):
+        pat3 = re.compile(
+            r'^\[%s/%s/%02d:[^\]]*\] completed output %s$'
+            % (re.escape(key[0]), re.escape(key[1]), key[2], re.escape(out)))
+        if any(pat.match(m) or pat2.match(m) for _l, m in res.log) or (
+                never and not any(pat3.match(m) for _l, m in res.log)):
             roots.add((key[1], res.prog.ppoint(key[0]), out))
     if not roots:
         return False
@@ -364,6 +369,16 @@ def run(params):
                     res, set(lb) - set(lr)):
                 preds['continued_run_instances_differ'] = [
                     'custom_output_polled_after_final_status']
+            elif not (set(lr) - set(lb)) and late_custom_downstream(
+                    res, set(lb) - set(lr), never=True):
+                # the simulated world drops messages sent to a scheduler
+                # that is down; here no poll result arrived before the run
+                # ended (e.g. stalled with a zero stall timeout)
+                res.sim.probe('custom_output_lost_while_down')
+                lr = None
+        if lr is None:
+            pass
+        elif set(lb) != set(lr):
             res.violate('continued_run_instances_differ', {
                 'only_uninterrupted': sorted(res.prog.iid(*i) for i in set(lb) - set(lr)),
                 'only_continued': sorted(res.prog.iid(*i) for i in set(lr) - set(lb)),
